@@ -96,6 +96,10 @@ def family(tier):
         extra_defs="XwB == Len(K.L.extra) <= 2 /\\ Len(K.L.states) <= 4")
     # last_press_tracker.tap_hold_timeout outliving everything else: tap-repress window 5 > hold timeout 2
     add("thtt", L("ab", ["(tap-hold 5 2 x lsft)", "y"]), "ab", 5)
+    # oneshot.ticks_to_ignore_events (one-shot-pause-processing): a counter that only matters for a later one-shot must
+    # not run - or must keep the loop awake - while nothing else is pending
+    add("ospause", L("abc", ["(one-shot-pause-processing 4)", "(one-shot 6 lsft)", "z"]), "abc", 6,
+        constraint="OsB", extra_defs="OsB == Len(K.L.os.keys) <= 2 /\\ Len(K.L.os.other) <= 2 /\\ Len(K.L.os.released) <= 2")
     # active sequences (macro with a delay)
     add("macro", L("ab", ["(macro x 2 S-y)", "z"]), "ab", 3)
     # tap-dance-eager
@@ -177,6 +181,9 @@ RICH = [
     ("concurrent_th", "(defcfg concurrent-tap-hold yes)\n(defsrc a b c)\n"
                       "(deflayer l0 (switch () (tap-hold 0 20 x lsft) fallthrough () (tap-hold 0 60 y lctl) break) "
                       "(tap-hold 0 40 b lalt) c)\n", {}, ["a", "b", "c"], [20, 40, 60]),
+    ("os_pause", "(defsrc a b c d)\n(defvirtualkeys v (one-shot-pause-processing 25))\n"
+                 "(deflayer l0 (one-shot-pause-processing 30) (one-shot 100 lsft) c (on-press tap-vkey v))\n", {},
+     ["a", "b", "c", "d"], [25, 30, 100]),
     ("tapdance", "(defsrc a b)\n(deflayer l0 (tap-dance 50 (x y z)) (tap-dance-eager 40 (1 2)))\n", {}, ["a", "b"], [40, 50]),
     ("chordv1", "(defsrc a b c)\n(defchords g 30 (a) x (b) y (c) z (a b) 1 (a b c) 2)\n"
                 "(deflayer l0 (chord g a) (chord g b) (chord g c))\n", {}, ["a", "b", "c"], [30]),
@@ -190,6 +197,12 @@ def alphabet(codes, extra=()):
     if len(codes) >= 2:
         conts.append([["d", codes[0]], ["d", codes[1]], ["t", 2], ["u", codes[1]], ["u", codes[0]]])
         conts.append([["d", codes[1]], ["t", 1], ["d", codes[0]], ["u", codes[1]], ["t", 1], ["u", codes[0]]])
+        # a tap of one key followed by a tap of another (e.g. a latched key - one-shot, tap-dance, leader - then the key
+        # it applies to), every ordered pair
+        for x in codes[:3]:
+            for y in codes[:3]:
+                if x != y:
+                    conts.append([["d", x], ["t", 1], ["u", x], ["t", 1], ["d", y], ["t", 1], ["u", y]])
     return conts + list(extra)
 
 
